@@ -40,7 +40,9 @@ KNOWN_CLASSES = {
 SPEC = {
     "tables": ["ExprPatterns"],
     "props_module": PROPS_MODULE,
-    "required": ["parse_total", "parse_consumes", "parse_never_panics", "patterns_as_modelled"],
+    "required": ["patterns_as_modelled", "parse_total", "parse_consumes", "parse_never_panics",
+                 "parse_error_cannot_start", "parse_error_unclosed", "parse_error_dangling", "parse_error_signed_exponent",
+                 "parse_cst_partial", "parse_cst_ieee_partial", "parse_render_partial", "literal_bits_agree", "parsed_eval_ok", "int_literal_overflow_rejected", "signed_exponent_witness"],
     "drivers": ["drv_c14"],
     "harness_bin": "c14",
     "eq": eq,
